@@ -20,10 +20,20 @@ def enc_of(name):
 
 
 def make_ragged(ctx, skel, x):
+    """the sequences; with skel["view"] they are a row selection (not yet flattened) of a larger array with one extra first row"""
     from bionumpy.encoded_array import EncodedArray, EncodedRaggedArray
     n = sum(skel["lens"])
-    return EncodedRaggedArray(EncodedArray(ctx.arr([x[f"l{i}"] for i in range(n)], "uint8"), enc_of(skel["enc"])),
-                              list(skel["lens"]))
+    vals = [x[f"l{i}"] for i in range(n)]
+    if skel.get("view"):
+        big = EncodedRaggedArray(EncodedArray(ctx.arr([0, 0, 0] + vals, "uint8"), enc_of(skel["enc"])), [3] + list(skel["lens"]))
+        return big[1:]
+    return EncodedRaggedArray(EncodedArray(ctx.arr(vals, "uint8"), enc_of(skel["enc"])), list(skel["lens"]))
+
+
+def with_views(sk, every=3):
+    """adds, for every `every`-th multi-row skeleton, the same skeleton presented as an un-flattened row selection"""
+    extra = [dict(k, view=True) for i, k in enumerate([k for k in sk if len(k.get("lens", [])) > 1]) if i % every == 0]
+    return sk + extra
 
 
 def rows_terms(skel, vals):
@@ -67,7 +77,7 @@ class Kmers(Harness):
         if tier == "thorough":
             out.append(dict(enc="ACGTEncoding", k=31, lens=[32]))
             out.append(dict(enc="ACTGEncoding", k=16, lens=[17, 16]))
-        return out
+        return with_views(out)
 
     def inputs(self, skel, V):
         for i in range(sum(skel["lens"])):
@@ -121,7 +131,7 @@ class MinimizersH(Harness):
             for k, w in kw:
                 for lens in shapes_for(w, tier)[:5 if tier == "quick" else 9]:
                     out.append(dict(enc=enc, k=k, w=w, lens=lens))
-        return out
+        return with_views(out)
 
     def inputs(self, skel, V):
         for i in range(sum(skel["lens"])):
@@ -174,7 +184,7 @@ class Match(Harness):
             for w in (1, 2, 3):
                 for lens in shapes_for(w, tier)[:5 if tier == "quick" else 9]:
                     out.append(dict(kind=kind, w=w, lens=lens))
-        return out
+        return with_views(out)
 
     def inputs(self, skel, V):
         lo, hi = (65, 68) if skel["kind"] == "ascii" else (0, 3)
@@ -239,7 +249,10 @@ class CountKmers(Harness):
                 # per-row counts: rows without any k-mer (empty / shorter than k) before, between and after other rows
                 for lens in ([k + 1, max(k - 1, 0), k], [k, 0, 0, k + 1], [0, k + 1, k - 1 if k > 1 else 0], [k + 1]):
                     out.append(dict(enc=enc, k=k, lens=lens, axis=-1))
-        return out
+                # history: k-mers of ANOTHER alphabet of the same size were counted and labelled earlier in the process
+                out.append(dict(enc="ACTGEncoding", k=k, lens=[k + 1], axis=None, prior="ACGTEncoding"))
+                out.append(dict(enc=enc, k=k, lens=[k + 1], axis=None, prior="ACTGEncoding"))
+        return with_views(out)
 
     def inputs(self, skel, V):
         for i in range(sum(skel["lens"])):
@@ -248,13 +261,24 @@ class CountKmers(Harness):
     def call(self, skel, x, ctx):
         from bionumpy.sequence import count_kmers
         seq = make_ragged(ctx, skel, x)
+        if skel.get("prior"):
+            from bionumpy.encoded_array import as_encoded_array
+            pc = count_kmers(as_encoded_array(["ACGT" * 2], enc_of(skel["prior"])), skel["k"])
+            list(pc.alphabet)                       # labels of the other alphabet were produced first
         if skel.get("axis") is None:
             c = count_kmers(seq, skel["k"])
+            if skel.get("prior"):
+                return dict(counts=ctx.lst(c.counts), labels=[str(l) for l in c.alphabet])
             return dict(counts=ctx.lst(c.counts))
         c = count_kmers(seq, skel["k"], axis=-1)
         counts = c.counts
         assert tuple(counts.shape) == (len(skel["lens"]), len(ALPH[skel["enc"]]) ** skel["k"]), counts.shape
         return dict(rows=[ctx.lst(counts[i]) for i in range(len(skel["lens"]))])
+
+    def _labels(self, skel):
+        """label of code c: the letters of its little-endian base-n digits"""
+        alpha, k = ALPH[skel["enc"]], skel["k"]
+        return ["".join(alpha[(c // len(alpha) ** i) % len(alpha)] for i in range(k)) for c in range(len(alpha) ** k)]
 
     def post(self, skel, x, out):
         if isinstance(out, Exc):
@@ -275,6 +299,8 @@ class CountKmers(Harness):
         codes = [sum(row[j + i] * n ** i for i in range(k)) for row in rows for j in range(max(0, len(row) - k + 1))]
         if len(out["counts"]) != n ** k:
             return False
+        if "labels" in out and out["labels"] != self._labels(skel):
+            return False
         return z_and([TI(out["counts"][c]) == sum([z3.If(h == c, 1, 0) for h in codes], z3.IntVal(0)) for c in range(n ** k)])
 
     def oracle(self, skel, cx, cout):
@@ -290,6 +316,9 @@ class CountKmers(Harness):
             return None if cout["rows"] == exp else f"count_kmers({rows}, k={k}, axis=-1) = {cout['rows']}, expected per row {exp}"
         codes = [sum(row[j + i] * n ** i for i in range(k)) for row in rows for j in range(max(0, len(row) - k + 1))]
         exp = [codes.count(c) for c in range(n ** k)]
+        if "labels" in cout and cout["labels"] != self._labels(skel):
+            return (f"count_kmers over {ALPH[skel['enc']]} (k={k}) after k-mers over {ALPH[skel['prior']]} were counted: labels {cout['labels'][:8]}..., "
+                    f"expected {self._labels(skel)[:8]}...")
         return None if cout["counts"] == exp else f"count_kmers({rows}, k={k}) = {cout['counts']}, expected {exp}"
 
 
@@ -353,7 +382,7 @@ class MotifScores(Harness):
             for lens in shapes_for(w, tier):
                 out.append(dict(enc="ACGTEncoding", w=w, lens=lens, api="get_motif_scores"))
             out.append(dict(enc="ACGTEncoding", w=w, lens=[w + 1, w], api="rolling_window"))
-        return out
+        return with_views(out)
 
     def inputs(self, skel, V):
         for i in range(sum(skel["lens"])):
